@@ -9,6 +9,7 @@ from ..core import AnalysisError, rule
 from ..csym import feasible_paths
 from ..pyfacts import get_pyrepo, is_self_call, norm
 from ..strdom import Interp, lit, show
+from .cstore import paths_of
 
 TT = "traits/trait_types.py"
 HT = "traits/has_traits.py"
@@ -250,6 +251,34 @@ def roles(ctx, res):
                         "listener must be updated with "
                         "_remove_trait_delegate_listener(name, value != NULL) "
                         f"(found {[x[1] for x in rm]})")
+    # chains of deferral: each hop maps the name produced by the previous hop
+    for fname in ("setattr_delegate", "_has_traits_trait"):
+        ps, _, _ = paths_of(ctx, fname)
+        prm = [p.name for p in facts.params(fname)]
+        n_chain = 0
+        bad = None
+        for p in ps:
+            hops = [e for e in p.events if e[0] == "->delegate_attr_name"]
+            for i, e in enumerate(hops):
+                want = hops[i - 1][2] if i > 0 else None
+                got = e[1][2] if len(e[1]) > 2 else "?"
+                if i > 0:
+                    n_chain += 1
+                    if got != want and bad is None:
+                        bad = (e, got, want, p)
+        res.instance(f"{fname}:chain", facts.loc(facts.func(fname)),
+                     second_hops=n_chain)
+        if n_chain == 0:
+            raise AnalysisError(f"{fname}: no two-hop delegation path")
+        res.oblige(bad is None, f"{fname}:chain-name",
+                   f"{CREL}:{bad[0][3]}" if bad else "",
+                   f"{fname}: the second hop of a deferral chain maps "
+                   f"`{bad[1][:50] if bad else ''}` instead of the name "
+                   f"produced by the previous hop: with a renaming first hop "
+                   f"the assignment lands on the wrong attribute of the "
+                   f"final delegate",
+                   [f"{CREL}:{l}" for l in dict.fromkeys(bad[3].lines) if l]
+                   if bad else None)
     res.instance("setattr_delegate", facts.loc(facts.func("setattr_delegate")),
                  modify_paths=n_mod, local_paths=n_loc)
     if n_mod == 0 or n_loc == 0:
